@@ -47,6 +47,8 @@ type Case struct {
 	NCtx   int    `json:"nctx"`
 	UpFail []bool `json:"up_fail"`
 	UpPos  []int  `json:"up_fail_pos,omitempty"` // where the failing up command sits: 0 last, 1 first, 2 in the middle (a succeeding one follows)
+	// Absent: per context, the hook lists that are not given at all (bit 0 up, 1 down, 2 before, 3 after)
+	Absent []int  `json:"absent,omitempty"`
 	Tasks  []T    `json:"tasks"`
 	Mode   string `json:"mode"` // parallel | sequential | scheduler | cli
 	// cli: how the tasks are spread over the targets of the command line, in order: a target is one task run
@@ -108,8 +110,23 @@ func (c Case) hooks(k int, trace string) (up, down, before, after []string) {
 			up = append(up, "exit 1")
 		}
 	}
-	return up, []string{tok(trace, fmt.Sprintf("down:%d", k))}, []string{tok(trace, fmt.Sprintf("cb:%d", k))}, []string{tok(trace, fmt.Sprintf("ca:%d", k))}
+	down, before, after = []string{tok(trace, fmt.Sprintf("down:%d", k))}, []string{tok(trace, fmt.Sprintf("cb:%d", k))}, []string{tok(trace, fmt.Sprintf("ca:%d", k))}
+	if c.absent(k, 0) {
+		up = nil
+	}
+	if c.absent(k, 1) {
+		down = nil
+	}
+	if c.absent(k, 2) {
+		before = nil
+	}
+	if c.absent(k, 3) {
+		after = nil
+	}
+	return up, down, before, after
 }
+
+func (c Case) absent(k, bit int) bool { return k < len(c.Absent) && c.Absent[k]&(1<<bit) != 0 }
 
 // check is the oracle over the ordered trace. ran[i] tells whether task i was started at all
 // (CLI: targets behind a failing target are not), errs (may be nil) are the Run results.
@@ -172,7 +189,7 @@ func (c Case) check(lines []string, ran []bool, errs []error, sequential bool) e
 					}
 					if !started[p[1]] {
 						started[p[1]] = true
-						if len(started) > cbs {
+						if len(started) > cbs && !c.absent(k, 2) {
 							return fmt.Errorf("context %d: task %s started (%s) but `before` had run only %d times for %d started tasks: %v", k, p[1], l, cbs, len(started), lines)
 						}
 					}
@@ -189,7 +206,11 @@ func (c Case) check(lines []string, ran []bool, errs []error, sequential bool) e
 			}
 			continue
 		}
-		if ups != 1 {
+		if c.absent(k, 0) {
+			if ups != 0 {
+				return fmt.Errorf("context %d has no `up` commands but an up token appeared: %v", k, lines)
+			}
+		} else if ups != 1 {
 			return fmt.Errorf("context %d: `up` ran %d times, want exactly once: %v", k, ups, lines)
 		}
 		if firstOther >= 0 && upAt > firstOther {
@@ -209,14 +230,27 @@ func (c Case) check(lines []string, ran []bool, errs []error, sequential bool) e
 			}
 			continue
 		}
-		if downs != 1 {
-			return fmt.Errorf("context %d: `down` ran %d times, want exactly once at shutdown: %v", k, downs, lines)
+		if c.absent(k, 1) {
+			if downs != 0 {
+				return fmt.Errorf("context %d has no `down` commands but a down token appeared: %v", k, lines)
+			}
+		} else {
+			if downs != 1 {
+				return fmt.Errorf("context %d: `down` ran %d times, want exactly once at shutdown (the context was used; whether it has `up` commands does not matter): %v", k, downs, lines)
+			}
+			if downAt < lastOther || downAt < upAt {
+				return fmt.Errorf("context %d: `down` ran before the last task of the context had finished: %v", k, lines)
+			}
 		}
-		if downAt < lastOther || downAt < upAt {
-			return fmt.Errorf("context %d: `down` ran before the last task of the context had finished: %v", k, lines)
+		okB := c.absent(k, 2) && cbs == 0 || !c.absent(k, 2) && cbs >= execs && cbs <= execs+skipped
+		okA := c.absent(k, 3) && cas == 0 || !c.absent(k, 3) && cas >= execs && cas <= execs+skipped
+		if !okB || !okA || (!c.absent(k, 2) && !c.absent(k, 3) && cbs != cas) {
+			return fmt.Errorf("context %d: %d task executions (+%d skipped by their condition) but `before` ran %d and `after` %d times (absent lists: %04b): %v", k, execs, skipped, cbs, cas, c.Absent, lines)
 		}
-		if cbs != cas || cbs < execs || cbs > execs+skipped {
-			return fmt.Errorf("context %d: %d task executions (+%d skipped by their condition) but `before` ran %d and `after` %d times: %v", k, execs, skipped, cbs, cas, lines)
+	}
+	for k := 0; k < c.NCtx; k++ {
+		if c.absent(k, 2) || c.absent(k, 3) {
+			sequential = false // the bracket check below needs both hooks of every context
 		}
 	}
 	if sequential {
@@ -352,7 +386,19 @@ func runCLI(c Case, dir string) error {
 	ctxs := gen.Map{}
 	for k := 0; k < c.NCtx; k++ {
 		up, down, before, after := c.hooks(k, trace)
-		ctxs = ctxs.Set(fmt.Sprint("c", k), gen.Map{{K: "up", V: strList(up)}, {K: "down", V: strList(down)}, {K: "before", V: strList(before)}, {K: "after", V: strList(after)}})
+		cm := gen.Map{}
+		for _, h := range []struct {
+			k string
+			v []string
+		}{{"up", up}, {"down", down}, {"before", before}, {"after", after}} {
+			if h.v != nil {
+				cm = cm.Set(h.k, strList(h.v))
+			}
+		}
+		if len(cm) == 0 {
+			cm = cm.Set("env", gen.Map{{K: "CTX", V: fmt.Sprint(k)}})
+		}
+		ctxs = ctxs.Set(fmt.Sprint("c", k), cm)
 	}
 	tasks := gen.Map{}
 	var argv []string
@@ -423,6 +469,14 @@ func genCase(rt *rapid.T, mode string) Case {
 	for k := 0; k < c.NCtx; k++ {
 		c.UpFail = append(c.UpFail, rapid.IntRange(0, 5).Draw(rt, "upfail") == 0)
 		c.UpPos = append(c.UpPos, rapid.IntRange(0, 2).Draw(rt, "upfailpos"))
+		ab := 0
+		if rapid.IntRange(0, 2).Draw(rt, "some-hook-lists-absent") == 0 {
+			ab = rapid.IntRange(1, 15).Draw(rt, "absent")
+		}
+		if ab&1 != 0 {
+			c.UpFail[k] = false // no up commands, nothing to fail
+		}
+		c.Absent = append(c.Absent, ab)
 	}
 	max := 8
 	if mode == "cli" {
@@ -475,6 +529,12 @@ func record(c Case) {
 	}
 	if upFail {
 		cls = append(cls, "failing-up")
+	}
+	for _, a := range c.Absent {
+		if a != 0 {
+			cls = append(cls, "a context without some of its hook lists")
+			break
+		}
 	}
 	for j, tg := range c.Targets {
 		if tg.Pipe && j < len(c.Targets)-1 {
